@@ -36,17 +36,19 @@ def lowestOffset (l : List QFrame) : Int :=
     | .crypto off _ => if off < acc then off else acc
     | _ => if 0 < acc then 0 else acc) 65535
 
-/-- `QUICFrames.build cryptoData baseOffset` with `n = len(cryptoData)`.
-    `none`: the Go code panics (negative `make`, slice bounds) or encodes a negative varint. -/
+/-- `QUICFrames.build cryptoData baseOffset` with `n = len(cryptoData)`: a CRYPTO frame never reads or
+    announces more than the datagram's share holds (`lengthOffset` and `length` are clamped), while its wire
+    offset stays `offset + baseOffset`.  `none`: a negative offset/length (the Go code would encode a
+    negative varint / `make` a negative length and panic). -/
 def qfBuild (l : List QFrame) (n base : Nat) : Option W :=
   let l := if l.length = 0 then [QFrame.crypto 0 0] else l
   let low := lowestOffset l
-  l.foldl (fun acc f => acc.bind fun w =>
+  l.foldl (fun (acc : Option W) (f : QFrame) => acc.bind fun w =>
     match f with
     | .crypto off len =>
-      let lengthOffset := off - low
-      let length := if len = 0 then (n : Int) - lengthOffset else len
-      if length < 0 ∨ lengthOffset < 0 ∨ lengthOffset > n ∨ off < 0 then none
+      let lengthOffset := if off - low < n then off - low else (n : Int)
+      let length := if len = 0 ∨ len > (n : Int) - lengthOffset then (n : Int) - lengthOffset else len
+      if length < 0 ∨ lengthOffset < 0 ∨ off < 0 then none
       else some { w with crypto := w.crypto ++ [((off + base).toNat, length.toNat)] }
     | .padding k => some { w with padBytes := w.padBytes + k }
     | .ping => some { w with pings := w.pings + 1 }) (some {})
